@@ -39,6 +39,16 @@ extern "C" void h_destroy_populated(void) {
       impl::Block* b = lx.make_block(*reg); b->new_handler(*N[1], *T[0]); b->add_stmt(*lx.make_expr_stmt(*lx.make_literal(*T[0], u8"12345678901234567890")));
       impl::Warehouse<ipr::Type> wh; wh.push_back(*T[0]); wh.push_back(*T[1]);
       auto& f = lx.get_function(lx.get_product(wh), *T[2]); reg->declare_fun(*N[2], f);
+      {  // products and sums of short-lived warehouses of 0..2 elements (the Lexicon keeps its own copy): used after the warehouses are gone
+         const ipr::Product* pr[3]; const ipr::Sum* sm[3];
+         for (unsigned n = 0; n < 3; ++n) { auto* tmp = new impl::Warehouse<ipr::Type>; for (unsigned i = 0; i < n; ++i) tmp->push_back(*T[i]); pr[n] = &lx.get_product(*tmp); sm[n] = &lx.get_sum(*tmp); delete tmp; }
+         for (unsigned n = 0; n < 3; ++n) {
+            impl::Warehouse<ipr::Type> again; for (unsigned i = 0; i < n; ++i) again.push_back(*T[i]);
+            vp_assert(pr[n]->size() == n && sm[n]->size() == n && &lx.get_product(again) == pr[n] && &lx.get_sum(again) == sm[n], 2);
+            for (unsigned i = 0; i < n; ++i) vp_assert(&(*pr[n])[i] == T[i] && &(*sm[n])[i] == T[i], 3);
+         }
+         lx.get_function(*pr[0], *T[0]); lx.get_function(*pr[0], *T[0], *sm[0]);
+      }
       impl::Enum* e = lx.make_enum(*reg, ipr::Enum::Kind::Scoped); for (int i = 0; i < 10; ++i) e->add_member(*N[i % 3]);
       lx.get_linkage(u8"Fortran"); lx.get_calling_convention(u8"stdcall"); lx.get_symbol(*N[0], *T[0]);
       // a word that does not fit in what is left of the 1 MiB string pool and is longer than the pool's header capacity: it gets a block of its own
